@@ -8,6 +8,7 @@ import (
 	"os"
 	"os/signal"
 	"path/filepath"
+	"runtime"
 	"sort"
 	"strings"
 	"syscall"
@@ -59,7 +60,7 @@ func (c20) Mandatory(tier string) []string {
 		m = append(m, "strace:syscalls-observed", "strace:dry-run:Copy", "strace:dry-run:Move", "strace:dry-run:Remove", "strace:injected:Copy", "strace:injected:Move", "strace:injected:Remove")
 	}
 	return append(m, "fault:Copy:control-copy-cut-short", "fault:Remove:missing-source", "k:0", "k:1", "k:2+", "order:copy-control-after-all-closed", "order:move-control-last",
-		"order:remove-control-last", "hostile:../secret.txt", "hostile:sub/../../secret.txt", "hostile:../../other/o.txt", "hostile:/abs/x", "hostile:sub/inner.txt", "hostile:../", "hostile:..//", "hostile:./", "hostile:/", "hostile:sub/", "hostile:../../other/", "hostile:sub/..", "inotify-events-seen", "dest-has-longer-files-of-the-same-names", "hostile:only-in-checksum-fields", "hostile:control-file-lists-itself", "sequence:harmless-upload-through-the-same-path-first", "handle:reader-entry-point-with-unclean-path", "handle:relative-paths", "sequence:Copy then Remove", "sequence:Copy then Move", "sequence:Move then Remove", "sequence:Move then Move")
+		"order:remove-control-last", "hostile:../secret.txt", "hostile:sub/../../secret.txt", "hostile:../../other/o.txt", "hostile:/abs/x", "hostile:sub/inner.txt", "hostile:../", "hostile:..//", "hostile:./", "hostile:/", "hostile:sub/", "hostile:../../other/", "hostile:sub/..", "inotify-events-seen", "dest-has-longer-files-of-the-same-names", "hostile:only-in-checksum-fields", "hostile:control-file-lists-itself", "sequence:harmless-upload-through-the-same-path-first", "handle:reader-entry-point-with-unclean-path", "handle:relative-paths", "handle:control-file-is-a-symlink", "env:GOMAXPROCS=1", "sequence:Copy then Remove", "sequence:Copy then Move", "sequence:Move then Remove", "sequence:Move then Move")
 }
 
 type c20Case struct {
@@ -71,6 +72,7 @@ type c20Case struct {
 	SumNames []string `json:"sumnames,omitempty"` // names listed ONLY in Checksums-Sha1/-Sha256 (never in Files)
 	Then     string   `json:"then,omitempty"`     // a second operation on the same handle after a successful first one: Remove | Move
 	Prime    bool     `json:"prime,omitempty"`    // first a harmless upload with as many files goes through the same path and operation
+	Link     bool     `json:"link,omitempty"`     // the control file in the upload directory is a symbolic link to a file elsewhere
 	Seed     uint64   `json:"seed"`
 }
 
@@ -93,6 +95,13 @@ func snapshot(root string) map[string]string {
 		case info.Mode().IsRegular():
 			b, _ := os.ReadFile(p)
 			out[rel] = fmt.Sprintf("%x", sha256.Sum256(b))
+		case info.Mode()&os.ModeSymlink != 0:
+			// a link to a regular file counts by the content it leads to (a moved link still leads there)
+			if b, err := os.ReadFile(p); err == nil {
+				out[rel] = fmt.Sprintf("%x", sha256.Sum256(b))
+			} else {
+				out[rel] = "other:dangling-link"
+			}
 		default:
 			out[rel] = "other:" + info.Mode().String()
 		}
@@ -202,6 +211,19 @@ func (p c20) run(c *core.C, t *core.T, cs c20Case) {
 	sb.WriteString("X-Padding: " + strings.Repeat("x", 9000) + "\n") // larger than any referenced file
 	ctlPath := filepath.Join(src, ctlName)
 	os.WriteFile(ctlPath, []byte(sb.String()), 0o644)
+	if cs.Link {
+		// queue/foo.dsc -> ../pool/foo.dsc: the upload is where the link is; the directory of the link's target holds
+		// other files of the same names, which are none of this upload's business
+		real := filepath.Join(base, "other", ctlName)
+		os.Rename(ctlPath, real)
+		os.Symlink(real, ctlPath)
+		for _, n := range cs.Names {
+			if !strings.ContainsAny(n, "/") && n != ctlName {
+				write(filepath.Join(base, "other", n), 77)
+			}
+		}
+		c.Cover("handle:control-file-is-a-symlink")
+	}
 	plain := func(n string) bool { return !strings.ContainsAny(n, "/") }
 	for _, n := range cs.Names {
 		if plain(n) && n != ctlName {
@@ -306,7 +328,12 @@ func (p c20) run(c *core.C, t *core.T, cs c20Case) {
 		}
 		wdSrc, _ = ino.Watch(src)
 	}
-	// run the operation
+	// run the operation - now and then with a single processor, as on a small build machine
+	if cs.Seed%7 == 2 {
+		oldProcs := runtime.GOMAXPROCS(1)
+		defer runtime.GOMAXPROCS(oldProcs)
+		c.Cover("env:GOMAXPROCS=1")
+	}
 	var opErr error
 	if fkind == "control-copy-cut-short" {
 		signal.Ignore(syscall.SIGXFSZ)
@@ -381,7 +408,7 @@ func (p c20) run(c *core.C, t *core.T, cs c20Case) {
 	outsideHashes := map[string]string{}
 	for rel, h := range before {
 		if !inside(rel) {
-			if h != "dir" {
+			if h != "dir" && !(cs.Link && rel == filepath.Join("other", ctlName)) {
 				outsideHashes[h] = rel
 			}
 			if after[rel] != h {
@@ -654,6 +681,9 @@ func (p c20) RunBatch(t *core.T, b core.Batch) {
 		case "ok":
 			k := i % 6
 			emit(c20Case{Op: op, Handle: h, Names: plainNames(r, k), Fault: "none", Seed: r.U64(), Pre: i%4 == 3 && op != "Remove"})
+			if i%4 == 1 && k > 0 {
+				emit(c20Case{Op: op, Handle: h, Names: plainNames(r, k), Fault: "none", Seed: r.U64(), Link: true})
+			}
 		case "fault":
 			k := 1 + i%5
 			names := plainNames(r, k)
